@@ -338,6 +338,9 @@ func (eng *Engine) checkContract(u *FuncUnit) {
 	for _, cl := range u.C.EnsuresLocal {
 		eng.checkClause(u.Pkg, cl, u.Decl.Body.Rbrace, u, sig.Results().Len() > 0)
 	}
+	for _, cl := range u.C.Defines {
+		eng.checkClause(u.Pkg, cl, pos, u, sig.Results().Len() > 0)
+	}
 	// loops
 	var loops []ast.Stmt
 	ast.Inspect(u.Decl.Body, func(n ast.Node) bool {
